@@ -334,6 +334,12 @@ outer:
 
 	// No better solution than allocate at the end of the table.
 	base = a.size - min
+	for base <= a.size && a.usedBase.Get(a.delta+base) {
+		// Note: all lines must have distinct bases, or "check" cannot tell them apart.
+		base++
+	}
+	a.taken.Grow(base + max + 1)
+	a.usedBase.Grow(a.delta + base + 1)
 	return
 }
 
